@@ -387,6 +387,74 @@ def c14_replay(run, path):
     return 0
 
 
+def record_and_judge(run, cmd, args, label, replay_kind, aspects):
+    import os, json
+    from infra import Infra
+    t = os.path.join(run.work, "%s.ndjson" % label)
+    rp = os.path.join(run.work, "%s.report.json" % label)
+    p = run.harness_cmd([cmd, "-out", t, "-report", rp, "-replays", os.path.join("/verif/replays", run.pid)] + args, label, timeout=1800)
+    if p.returncode != 0 or not os.path.exists(rp):
+        raise Infra("%s failed: %s" % (cmd, (p.stdout + p.stderr)[-1500:]))
+    rep = json.load(open(rp))
+    if rep.get("infra"):
+        raise Infra("%s reported infrastructure problems: %s" % (cmd, rep["infra"][:3]))
+    run.absorb(rep, aspects)
+    run.judge_trace(t, "Trace_Store", label, replay_kind, timeout=1800)
+
+
+ADAPTER_ASPECTS = VALUE_ASPECTS | {"events"}
+
+
+def c16(run, tier):
+    import os
+    # design level + spec -> code: the JsonAdapter machine refines the documented mapping for every value within the
+    # bound (checked by TLC in the same run that emits the values); the harness renders each value (plain and with seeded
+    # white space / number spellings / escapes), compares tree and Pull stream, and tries every truncation + mutations
+    cfg = run.cfg("MC_Json.cfg", {"Depth": Q(tier, 2, 3), "Width": Q(tier, 2, 2)}, "gen.cfg")
+    trace = os.path.join(run.work, "json.ndjson")
+    rep = run.tlc_gen_replay("MC_Json", cfg, "values", harness_args=["-out", trace], timeout=Q(tier, 400, 3000))
+    run.absorb(rep, ADAPTER_ASPECTS)
+    run.judge_trace(trace, "Trace_Store", "json-trees", "C16.store", timeout=1800)
+    # code -> spec: random values (depth <= 4), Pull streams judged against DocEvents by the trace specification
+    record_and_judge(run, "json-record", ["-n", str(Q(tier, 800, 8000))], "json-random", "C16.trace", ADAPTER_ASPECTS)
+
+
+def c17(run, tier):
+    import os
+    cfg = run.cfg("MC_Html.cfg", {"MaxNodes": Q(tier, 5, 6)}, "gen.cfg")
+    trace = os.path.join(run.work, "html.ndjson")
+    rep = run.tlc_gen_replay("MC_Html", cfg, "dom-shapes", harness_args=["-out", trace], timeout=Q(tier, 400, 3000))
+    run.absorb(rep, ADAPTER_ASPECTS)
+    run.judge_trace(trace, "Trace_Store", "dom-shapes", "C17.trace", timeout=1800)
+    record_and_judge(run, "html-record", ["-n", str(Q(tier, 1500, 30000))], "tag-soup", "C17.trace", ADAPTER_ASPECTS)
+
+
+def adapter_replay(run, path):
+    import json, os, subprocess
+    rc = json.load(open(path))
+    run.build_harness()
+    fam = rc.get("fam", "")
+    if fam in ("C16.json",):
+        p = subprocess.run([run.harness, "replay-one", path], env=run.env)
+        if p.returncode == 1:
+            print("VIOLATION property=%s replay=%s" % (run.pid, path))
+        return p.returncode
+    t = os.path.join(run.work, "replay.ndjson")
+    if fam.startswith("C17"):
+        p = run.harness_cmd(["html-one", "-out", t, "-report", os.path.join(run.work, "r.json"), path], "html-one")
+        rep = json.load(open(os.path.join(run.work, "r.json")))
+        run.absorb(rep, ADAPTER_ASPECTS)
+    else:
+        line = rc.get("line", {})
+        open(t, "w").write(json.dumps(line) + "\n")
+    bad = run.judge_trace(t, "Trace_Store", "replay", fam, workers=1) if os.path.getsize(t) else 0
+    if bad or run.violations:
+        print("VIOLATION property=%s replay=%s" % (run.pid, path))
+        return 1
+    print("not reproduced:", path)
+    return 0
+
+
 def raise_spec(run, what, out):
     from infra import Infra
     raise Infra("%s -- the specification itself is inconsistent (machinery problem, not a verdict):\n%s" % (what, run.tail(out)))
@@ -448,6 +516,19 @@ PROPS = {
             "files with N in 1..4; every hook trace is judged by Trace_CliPool and stdout is compared block-wise with -c 1", "exhaustive": {"quick": False, "thorough": False},
             "assumptions": BASE_ASSUME + ["data races are detected by the Go race detector on the executions that happen (no exhaustive schedule control inside the library: it has no hooks)",
                                           "hook events that add to a counted resource are logged after the real action, those that remove from it before, so the logged occupancy never exceeds the real one"]},
+    "C16": {"run": c16, "replay": adapter_replay,
+            "rule": "TLC steps the JsonAdapter machine (a transcription of jsonParser.Pull: stack of [state, onField, emitEnd]) Pull by Pull over every JSON text of the value pool - 12 scalars, "
+            "5 unusual keys, all arrays/objects of width <= 2 over 3 leaves, depth-2 (thorough 3) containers over 7 representatives incl. empty containers and duplicate keys, pairs of top-level values - "
+            "and checks PrefixOK / CompleteAtEOF / ContractOK; each text is rendered 4 ways (plain; seeded white space, alternative number spellings, \\u escapes), read through xsel.ReadJson and through a "
+            "Pull-logging wrapper; every proper prefix of the plain text that is not itself complete and 16 single-character mutations must give an error (oracle for 'complete': encoding/json's validating Decode); "
+            "random values of depth <= 4 are recorded and their Pull streams judged by Trace_Store (JsonRun) together with the resulting cursor snapshots (StoreRun)",
+            "exhaustive": {"quick": True, "thorough": True}, "assumptions": BASE_ASSUME + ["encoding/json's Decode is the oracle for whether a mutated/truncated text is a sequence of complete JSON values"]},
+    "C17": {"run": c17, "replay": adapter_replay,
+            "rule": "TLC builds every DOM shape of <= MaxNodes-1 (quick 4, thorough 5) element/text/comment nodes with attributes under a document node with a doctype and steps the HtmlAdapter machine "
+            "(a transcription of htmlParser.Pull with its four flags) over it: PrefixOK, CompleteAtEOF (up to surplus End at the root), ContractOK; each shape is rendered as body content; seeded tag soup "
+            "(26 tag names incl. svg/math/template/select/table, void elements, mis-nested end tags, xmlns / xmlns:xlink / xlink:href / prefixed attributes, comments after </html>) is parsed by "
+            "golang.org/x/net/html (the oracle the property names); the DOM, the Pull stream and the cursor snapshot are logged and Trace_Store judges Pulls = HtmlEvents(DOM) and the Cursor contract",
+            "exhaustive": {"quick": True, "thorough": True}, "assumptions": BASE_ASSUME + ["golang.org/x/net/html.Parse is the HTML5 parsing algorithm (the property's own oracle)"]},
     "C01": {
         "run": c01,
         "rule": "TLC enumerates every document the Store machine can build within the node bound (all kinds, names a/b x {no namespace,U1}), "
